@@ -31,10 +31,10 @@ package disasm
 //@   modifies syscall
 //@   ensures @scope {C16} result == nil ==> exists(j, 0, len(instructions), contains(instructions[j], syscall.Assembly))
 //@   ensures @frame syscall.Location == old(syscall.Location) && syscall.Function == old(syscall.Function)
-//@   loop 1
+//@   loop 1 match len(instructions) - 1
 //@     invariant @struct syscall != nil && i < len(instructions) && i >= 0 - 1 && syscall.Location == old(syscall.Location) && syscall.Function == old(syscall.Function)
 //@     decreases i + 1
-//@   loop 2 binder k
+//@   loop 2 binder k match range matchers
 //@     invariant @struct syscall != nil && 0 <= i && i < len(instructions) && line == instructions[i] && syscall.Location == old(syscall.Location) && syscall.Function == old(syscall.Function)
 
 //@ func parseX86_64(p *parser, line, caller string, instructions []string) (*Syscall, error)   properties C16
@@ -53,7 +53,7 @@ package disasm
 //@   assert @scope_now {C16} forall(j, 0, len(instructions), exists(m, 0, ghost.pos, instructions[j] == ghost.lines[m] && forall(q, m, ghost.pos, !prefixof("TEXT", ghost.lines[q])))) at before call parseX86_64#1
 //@   assert @same_function {C16} exists(m, 0, ghost.pos, contains(ghost.lines[m], syscall.Assembly) && forall(q, m, ghost.pos, !prefixof("TEXT", ghost.lines[q]))) at after assign syscalls#1
 //@   assert @append_only {C16} len(syscalls) >= len(sc0) && forall(j, 0, len(sc0), syscalls[j] == sc0[j]) at loop 1 end
-//@   loop 1
+//@   loop 1 match s.Scan()
 //@     invariant @pos 0 <= ghost.pos && ghost.pos <= ghost.nlines
 //@     invariant @own own(syscalls) && own(instructions)
 //@     invariant @scope {C16} forall(j, 0, len(instructions), exists(m, 0, ghost.pos, instructions[j] == ghost.lines[m] && forall(q, m, ghost.pos, !prefixof("TEXT", ghost.lines[q]))))
